@@ -93,10 +93,10 @@ let show_ws (evs : ws_ev list) : string * bool =
     | WFuel -> Some "FUEL") evs in
   ((if items = [] then "-" else String.concat ";" items), !closed)
 
-let ws_gen fx toks =
+let ws_gen mk fx toks =
   match toks with
   | [_opt; stream; cuts] ->
-      let c = ws_server_cfg fx in
+      let c = mk fx in
       let arr = cut_stream (bytes_of_tok stream) cuts in
       let _, evs = ws_arrivals c ws_init arr in
       let o, cl = show_ws evs in
@@ -108,6 +108,8 @@ let wsconsts _ =
     (int_of_z (ws_server_cfg ws_fixed).wsc_rxbuf)
 
 let () =
-  register "ws" (ws_gen ws_fixed); register "ws0" (ws_gen ws_orig); register "wsconsts" wsconsts;
+  register "ws" (ws_gen ws_server_cfg ws_fixed); register "ws0" (ws_gen ws_server_cfg ws_orig);
+  register "wsc" (ws_gen ws_client_cfg ws_fixed); register "wsc0" (ws_gen ws_client_cfg ws_orig);
+  register "wsconsts" wsconsts;
   register "tcpsize" psize; register "tcpmaxrcv" maxrcv;
   register "tcp" (tcp_gen true); register "tcp0" (tcp_gen false); register "tcpconsts" tcpconsts
